@@ -214,7 +214,9 @@ def check_property(prop, tier, seed):
     covered = set()
     native_total = 0
     bounded = set()
+    fallbacks = []
     for r in results:
+        fallbacks += r.get("bounded_fallback", [])
         bounded |= set(r.get("bounded_clauses", []))
         trusted |= set(r["trusted"])
         solver_s += r["solver_s"]
@@ -277,6 +279,8 @@ def check_property(prop, tier, seed):
         print(f"VIOLATION property={prop} replay={v['replay']} obligation={v['obligation']}{tail}" if not tail else f"VIOLATION property={prop} replay={v['replay']} obligation={v['obligation']} no-failing-input-found")
     for u in undecided[:20]:
         print(f"UNDECIDED property={prop} obligation={u['obligation']} reason={u['reason'][:300]}")
+    for fb in fallbacks[:20]:
+        print(f"BOUNDED-ONLY property={prop} instance={fb['instance']} trials={fb['trials']} (not proved) reason={fb['reason'][:200]}")
     for e in errors[:10]:
         print(f"CHECKER-ERROR property={prop} where={e['where']}\n{e['trace'][:3000]}")
 
@@ -303,6 +307,7 @@ def check_property(prop, tier, seed):
             "violations_reported": [v["obligation"] for v in violations][:50],
             "native_differential_trials": native_total,
             "bounded_standin_clauses_not_counted_as_proved": sorted(bounded)[:60],
+            "instances_outside_the_verifier_checked_by_bounded_standin_only": fallbacks[:60],
             "source_lines_executed_symbolically": len(covered),
             "samples": samples or [{"note": "no discharged postcondition on this run"}],
             "clauses_not_decided": spec.get("not_decided", []),
@@ -327,14 +332,16 @@ def check_property(prop, tier, seed):
         errors.append({"where": "evidence", "trace": str(e)})
     with open(os.path.join(ev_dir, f"{prop}.json"), "w") as fh:
         json.dump(ev, fh, indent=1)
-    print(f"{prop} [{tier}]: {discharged}/{obligations} obligations discharged over {len(jobs)} contract instances of {len(functions)} functions; solver {solver_s:.1f}s, wall {wall:.1f}s; undecided {len(undecided)}, violations {len(violations)}, known findings {len(printed)}")
+    print(f"{prop} [{tier}]: {discharged}/{obligations} obligations discharged over {len(jobs)} contract instances of {len(functions)} functions; solver {solver_s:.1f}s, wall {wall:.1f}s; undecided {len(undecided)}, bounded-only instances {len(fallbacks)}, violations {len(violations)}, known findings {len(printed)}")
     if violations:
         return EXIT_VIOLATION
     if errors:
         return EXIT_ERROR
-    if obligations == 0 or (expected and obligations < expected // 2):
+    if (obligations == 0 and not fallbacks) or (expected and obligations < expected // 2 and not fallbacks):
         print(f"CHECKER-ERROR: vacuity guard: {obligations} obligations (expected about {expected})")
         return EXIT_ERROR
+    if obligations == 0:
+        print(f"NOTE property={prop}: no contract instance within the verifier's reach on this tree; bounded stand-in only ({len(fallbacks)} instances)")
     if undecided:
         return EXIT_UNDECIDED
     return EXIT_OK
